@@ -183,6 +183,18 @@ func c02Cases(env *Env, rep *Report) []c02Case {
 			add("char-substitution", fmt.Sprintf("pos=%d/char=%q", i, c), valid[:i]+string(c)+valid[i+1:], "honour")
 		}
 	}
+	// (1b) a character replaced by one outside ASCII whose UTF-16 code unit has the same low byte (U+01xx, U+04xx,
+	// U+FFxx): a decoder that looks at low bytes only turns these back into the valid token. They differ from
+	// it only on the wire, so all of them go through the packet decoder.
+	for i := 0; i < len(valid); i++ {
+		for _, hi := range []rune{0x0100, 0x0400, 0xFF00} {
+			if hi != 0x0100 && i%5 != 0 {
+				continue
+			}
+			c := hi + rune(valid[i])
+			add("wide-char-substitution", fmt.Sprintf("pos=%d/char=U+%04X", i, c), valid[:i]+string(c)+valid[i+1:], "honour")
+		}
+	}
 	// (2) single-bit flips of the decoded segments
 	for si := 0; si < 3; si++ {
 		raw, _ := b64.DecodeString(segs[si])
@@ -334,7 +346,7 @@ func c02Proc(c c02Case, rep *Report) (status uint32, answered bool, ended bool, 
 }
 
 func c02(env *Env, rep *Report) {
-	rep.Rule = "from a token minted by the real GeneratePAAToken in this run: every single-character substitution at every position with each of 67 characters; every single-bit flip of the decoded header, payload and signature; every truncation; segment counts 0..6 and arbitrary strings; re-signing (alg none unsecured / with MAC, HS384, HS512, HS256 under 5 other keys, RS256, embedded JWK, crit / b64 headers); claims signed with the right key (8 issuers, exp x nbf and exp x iat over {absent, now-1h, now-70s, now-50s, now, now+50s, now+70s, now+1h}, odd exp types, unknown / empty access token); JSON flattened / general serialisation and nested JWS; x identity-provider behaviours {honours, unknown, revoked, 500, transport error, answers 'unknown' only after every time-out of the caller has fired}. " +
+	rep.Rule = "from a token minted by the real GeneratePAAToken in this run: every single-character substitution at every position with each of 67 characters, and with the characters U+01xx / U+04xx / U+FFxx that share its low byte (through the packet decoder); every single-bit flip of the decoded header, payload and signature; every truncation; segment counts 0..6 and arbitrary strings; re-signing (alg none unsecured / with MAC, HS384, HS512, HS256 under 5 other keys, RS256, embedded JWK, crit / b64 headers); claims signed with the right key (8 issuers, exp x nbf and exp x iat over {absent, now-1h, now-70s, now-50s, now, now+50s, now+70s, now+1h}, odd exp types, unknown / empty access token); JSON flattened / general serialisation and nested JWS; x identity-provider behaviours {honours, unknown, revoked, 500, transport error, answers 'unknown' only after every time-out of the caller has fired}. " +
 		"Every string goes to security.CheckPAACookie; every string of the non-mutation classes and every 7th mutation (thorough: all) additionally travels UTF-16 encoded in a TUNNEL_CREATE packet through the real Processor wired as main.go does. Plus smart-card authentication enabled next to token authentication with handshakes offering smart card only / both / cookie only x 5 cookie cases x 3 transports. Plus, after another connection was accepted with the minted cookie, TUNNEL_CREATE packets that announce a cookie of that length (half, +-2, double) and carry none or only a prefix of its bytes (3 transports). Plus histories in one process: the same minted cookie presented repeatedly while the IdP changes between honouring, revoking, failing and recovering (7 sequences, checker and Processor): every presentation must follow the IdP's verdict at that moment. Oracle (three-valued, computed with crypto/hmac over the raw text): must-refuse strings must be refused (at the Processor: status E_PROXY_COOKIE_AUTHENTICATION_ACCESS_DENIED, tunnel ended, next packet unanswered), the minted token must be accepted, the rest is unspecified. distinct_nontrivial = distinct cookie strings x IdP behaviours."
 	rep.Assumptions = append(rep.Assumptions, "expiry boundary cases keep 10 s distance from the 60 s leeway (no sub-second wall-clock oracle)", "a signature segment that base64-decodes to the same 32 bytes is the same signature (classified by decoded value)",
 		"identity provider is a scripted http.RoundTripper behind the real go-oidc provider object")
